@@ -12,7 +12,7 @@ TASK_TIMEOUT = 300
 RULE = ("TLC enumerates the read/variant geometry space (Gen_C06: variant kind x length (SNV, ins/del 1-3, MNP 2-3), allele carried, "
         "read start offset -13..+3 relative to the variant start and end offset -3..+13 relative to its end in haplotype coordinates "
         "- starts/ends inside the variant included -, decoration in {plain, soft clip, hard clip, =/X CIGAR, unrelated indel 20 bp away, "
-        "N skip, mate pair, overlapping mate pair}); a scenario is one (kind, length) world with a batch of such reads in one BAM, read "
+        "N skip beside the variant, N skip over the variant, mate pair, overlapping mate pair}); a scenario is one (kind, length) world with a batch of such reads in one BAM, read "
         "with and without reference through ReadSetReader.read; plus a second variant of random kind 25 bp away; non-trivial = the batch "
         "contains reads that fully cover the variant and reads that only partially overlap it")
 ASSUMPTIONS = [
@@ -124,6 +124,10 @@ def drive(sc):
         hs, he = hp_p + g["so"], hp_p + alen + g["eo"]
         if g["deco"] in ("nskip", "farindel"):
             he = max(he, hp.ref_to_hap(P + len(V.ref) + 34))   # long enough to reach the decoration
+        if g["deco"] == "nskipover":
+            # a spliced read: aligned left of the variant, a reference skip over the whole variant, aligned right of it
+            hs = min(hs, hp.ref_to_hap(P - 16 - abs(g["so"])))
+            he = max(he, hp.ref_to_hap(P + len(V.ref) + 16 + abs(g["eo"])))
         if not (0 <= hs < he <= len(hp.seq)):
             continue
         r = hp.read(hs, he)
@@ -154,6 +158,13 @@ def drive(sc):
             x = hp.ref_to_hap(P + len(V.ref) + 14)
             if hs < x and x + 7 < he:
                 r1, r2 = hp.read(hs, x), hp.read(x + 7, he)
+                if r1 and r2 and r2[0] - (r1[0] + W.cigar_reflen(r1[1])) > 0:
+                    pos0, seq = r1[0], r1[2] + r2[2]
+                    ops = list(r1[1]) + [("N", r2[0] - (r1[0] + W.cigar_reflen(r1[1])))] + list(r2[1])
+        elif deco == "nskipover":
+            x, y = hp.ref_to_hap(P - 6), hp.ref_to_hap(P + len(V.ref) + 6)
+            if hs < x and y < he:
+                r1, r2 = hp.read(hs, x), hp.read(y, he)
                 if r1 and r2 and r2[0] - (r1[0] + W.cigar_reflen(r1[1])) > 0:
                     pos0, seq = r1[0], r1[2] + r2[2]
                     ops = list(r1[1]) + [("N", r2[0] - (r1[0] + W.cigar_reflen(r1[1])))] + list(r2[1])
